@@ -3,14 +3,14 @@
    (Spec.v: one in-memory value per key) and ends in a state related to it; the structural invariant
    holds at the end.  Statements only; proofs in ProofRefineAll.v.
 
-   `covered`  : the operations with a step theorem (all but the cursor scans - C16 -, the random key,
-                the count of keys - a recorded known finding -, the bulk expiry deletion - C20 -, the
-                pivot inserts of lists and the multi-key sorted-set operations, which the lock-step
-                specification comparison decides);
+   `covered`  : the operations with a step theorem: all but the cursor scans (C16), the random key,
+                the count of keys (a recorded known finding) and the bulk expiry deletion (C20);
    `side_ok`  : at every state reached, the arguments are Go values (ints in range, maps with distinct
                 keys, scores that are numbers), a member chosen for SPOP/SRANDMEMBER is a member, a push
                 did not collide at position 2^53, rank lookups see number scores (an invariant:
-                C05_stored_scores_stay_numbers), rank deletion sees a table below 2^63 rows;
+                C05_stored_scores_stay_numbers), rank deletion sees a table below 2^63 rows, a multi-key
+                sum adds up to the same value in row order and in key order (wf_zalg, Properties/C05.v), list
+                positions are at most 2^1022 and a pivot insert found a new midpoint (Properties/C02.v);
    `times_ok` : the clock does not go backwards.
    The IEEE-754 order facts the list proofs need are theorems of ProofFloat.v (see Properties/C02.v). *)
 From Redka Require Import Base Db Ops Spec Abs Inv Refine ProofRefineStr ProofRefineAll.
